@@ -5,7 +5,7 @@
    Model/RemoteSpec.v (the specifications). *)
 From Oras Require Import Base.Prelude Base.Regex Generated.GC20 Generated.GC13 Model.Reference
   Model.Registry Model.RemoteClient Model.RemoteSpec
-  Proofs.Reference Proofs.RemoteClient Proofs.RemoteSeek Proofs.RemoteRefine.
+  Model.Location Proofs.Reference Proofs.RemoteClient Proofs.RemoteSeek Proofs.RemoteRefine Proofs.Location Proofs.RemotePaged.
 
 (* ------------------------------------------------------------------ *)
 (* Refinement: the client run against the registry model behaves as the content store
@@ -52,6 +52,43 @@ Theorem C13_refines_store_refuted :
 Proof. exact resolve_tag_without_digest_header_refuted. Qed.
 Print Assumptions C13_refines_store_refuted.
 
+(* The excluded hypothesis is exactly the failing mechanism, in EVERY registry state: a tag
+   that exists, resolved by HEAD (Resolve; FetchReference when the GET has no
+   Content-Length) against a registry that sends no Docker-Content-Digest, fails although
+   the store resolves it.  All other (profile, operation) combinations are inside
+   C13_refines_store_partial -- [wf_op] puts no other condition on the profile. *)
+Theorem C13_resolve_tag_needs_header :
+  forall (H : str -> str) (parse_mt : str -> option str) (subject_of : str -> option (option desc))
+         (main other : str) (user_mts : list str) (p : profile) g n rst rs rf d mt c,
+    resolve_ref main rs = Some rf -> valid_digest rf = false ->
+    man_lookup (store_of g) rf = Some (d, (mt, c)) -> p_dighdr p = false ->
+    snd (run_op H parse_mt subject_of main other user_mts (reg * N)
+                (cexch H subject_of main other p None) (g, n) rst (OResolve rs)) = RErr EOther /\
+    snd (spec_op H subject_of main user_mts (store_of g) (OResolve rs)) = RDesc (mkDesc mt d (len c)).
+Proof. exact resolve_tag_needs_header. Qed.
+Print Assumptions C13_resolve_tag_needs_header.
+
+Theorem C13_fetchref_tag_needs_header :
+  forall (H : str -> str) (parse_mt : str -> option str) (subject_of : str -> option (option desc))
+         (main other : str) (user_mts : list str) (p : profile) g n rst rs rf d mt c,
+    resolve_ref main rs = Some rf -> valid_digest rf = false ->
+    man_lookup (store_of g) rf = Some (d, (mt, c)) -> p_dighdr p = false -> p_clen p = false ->
+    snd (run_op H parse_mt subject_of main other user_mts (reg * N)
+                (cexch H subject_of main other p None) (g, n) rst (OFetchRef rs)) = RErr EOther /\
+    snd (spec_op H subject_of main user_mts (store_of g) (OFetchRef rs)) = RDescBytes (mkDesc mt d (len c)) c.
+Proof. exact fetchref_tag_needs_header. Qed.
+Print Assumptions C13_fetchref_tag_needs_header.
+
+(* every one of the 32 capability profiles, with the referrers state unknown, supported and
+   (registries without the Referrers API) unsupported: a history with every operation --
+   a tag resolved by HEAD wherever the hypothesis admits it, by digest otherwise -- gives
+   the store's results (computation inside Coq) *)
+Example C13_all_profiles_covered :
+  length all_profiles = 32%nat /\
+  forallb (fun p => covered p RSUnknown && covered p RSSupported
+                    && (p_referrers p || covered p RSUnsupported)) all_profiles = true.
+Proof. exact all_profiles_covered. Qed.
+
 (* Predecessors over the Referrers API returns exactly the stored manifests whose
    subject is the given descriptor (any registry state, no hypothesis on the history) *)
 Theorem C13_predecessors_reflect :
@@ -66,6 +103,57 @@ Theorem C13_predecessors_reflect :
        RDescs (referrers_of (subj_of subject_of) g (d_dg d))).
 Proof. exact predecessors_reflect. Qed.
 Print Assumptions C13_predecessors_reflect.
+
+(* Composition with C15 (Model/Paging.v): in every state the registry model reaches from
+   the empty registry by any request sequence the manifest digests are distinct and
+   non-empty, hence against a registry that PAGINATES the Referrers API in any legal way
+   (C15: any page split below the cap, any Link rendering that resolves, filtering announced
+   or not) the client's page loop delivers, concatenated, exactly the stored manifests with
+   the given subject (of the requested artifact type): Predecessors = concat of the pages. *)
+Theorem C13_registry_digests_distinct :
+  forall (H : str -> str) (sj : str -> option desc) (main other : str) (p : profile),
+    (forall c, H c <> []) ->
+    forall ob qs, keys_ok (fold_left (fun g q => fst (handle H sj main other p g q)) qs (reg0 ob)).
+Proof. exact reachable_keys_ok. Qed.
+Print Assumptions C13_registry_digests_distinct.
+
+Theorem C13_referrers_paged :
+  forall (sj : str -> option desc) (atype : str -> str) g dg (cap : nat) (ds : nat -> P.decision)
+         (render : nat -> P.url -> P.url -> str) (trailer : nat -> str)
+         (resolve : P.url -> str -> option P.url) (c : P.cfg) (path : str) (fuel : nat),
+    keys_ok g ->
+    P.c_kind c = P.KReferrers ->
+    (forall i base x, In x (map fst (ref_items sj atype g dg)) ->
+       contains P.c_gt (render i base (PP.link_target (ds i) base x)) = false) ->
+    (forall i base x, In x (map fst (ref_items sj atype g dg)) ->
+       resolve base (render i base (PP.link_target (ds i) base x)) = Some (PP.link_target (ds i) base x)) ->
+    (forall i, (Z.of_N (P.d_doc_len (ds i)) <= P.eff_limit (P.c_limit c))%Z) ->
+    (forall i, P.qget P.k_at (P.d_extra (ds i)) = None) ->
+    (length (ref_items sj atype g dg) < fuel)%nat ->
+    let t := P.loop (P.reg_serve P.KReferrers (ref_items sj atype g dg) cap ds render trailer) resolve
+                    (fun _ => false) c fuel 0 0 (P.mkUrl path (PP.referrers_query (P.c_at c))) [] in
+    P.t_out t = P.Done /\
+    concat (P.t_pages t) = P.filter_referrers (ref_items sj atype g dg) (P.c_at c) /\
+    (length (P.t_reqs t) <= S (length (ref_items sj atype g dg)))%nat.
+Proof. exact referrers_paged. Qed.
+Print Assumptions C13_referrers_paged.
+
+Theorem C13_predecessors_paged :
+  forall (sj : str -> option desc) (atype : str -> str) g dg cap ds render trailer resolve c path fuel,
+    keys_ok g -> P.c_kind c = P.KReferrers -> P.c_at c = [] ->
+    (forall i base x, In x (map fst (ref_items sj atype g dg)) ->
+       contains P.c_gt (render i base (PP.link_target (ds i) base x)) = false) ->
+    (forall i base x, In x (map fst (ref_items sj atype g dg)) ->
+       resolve base (render i base (PP.link_target (ds i) base x)) = Some (PP.link_target (ds i) base x)) ->
+    (forall i, (Z.of_N (P.d_doc_len (ds i)) <= P.eff_limit (P.c_limit c))%Z) ->
+    (forall i, P.qget P.k_at (P.d_extra (ds i)) = None) ->
+    (length (ref_items sj atype g dg) < fuel)%nat ->
+    let t := P.loop (P.reg_serve P.KReferrers (ref_items sj atype g dg) cap ds render trailer) resolve
+                    (fun _ => false) c fuel 0 0 (P.mkUrl path []) [] in
+    P.t_out t = P.Done /\
+    map fst (concat (P.t_pages t)) = map d_dg (referrers_of sj g dg).
+Proof. exact predecessors_paged. Qed.
+Print Assumptions C13_predecessors_paged.
 
 (* non-vacuity of the refinement hypotheses: a manifest pushed under a tag, resolved,
    fetched, re-tagged; a second manifest whose subject is the first one, found by
@@ -245,19 +333,89 @@ Proof. exact blob_mount_consistent. Qed.
 Print Assumptions C13_corruption_rejected_mount.
 
 (* ------------------------------------------------------------------ *)
-(* Read/Seek on a blob reader of a range-capable registry = an in-memory reader
-   over the blob's bytes, for every script; a Range request "bytes=off-(size-1)" is
-   emitted exactly when the position changes to an offset inside the blob. *)
+(* Step 2 of the two-step upload (Model/Location.v, completePushAfterInitialPost): the PUT
+   follows the Location of the 202 -- same scheme, host and path; the POST's authority for
+   an absolute-path Location; the port is restored only when the POST went to port 443 of
+   the same host and the Location names no port (issue 177); the query is the Location's
+   with digest=<descriptor digest> set, nothing else added or dropped. *)
+Theorem C13_location_authority :
+  forall req l dg,
+    let t := resolve req l in
+    let u := put_url req l dg in
+    u_scheme u = u_scheme t /\ u_host u = u_host t /\ u_path u = u_path t /\
+    u_port u = (if needs_repair req t then port443 else u_port t).
+Proof. exact put_url_authority. Qed.
+Print Assumptions C13_location_authority.
+
+Theorem C13_location_relative :
+  forall req p q dg,
+    let u := put_url req (LPath p q) dg in
+    u_scheme u = u_scheme req /\ u_host u = u_host req /\ u_port u = u_port req /\ u_path u = p.
+Proof. exact put_url_relative. Qed.
+Print Assumptions C13_location_relative.
+
+Theorem C13_location_port_repaired :
+  forall req sch pa q dg,
+    u_port req = port443 ->
+    let u := put_url req (LAbs (mkUrl sch (u_host req) [] pa q)) dg in
+    u_host u = u_host req /\ u_port u = port443 /\ u_path u = pa.
+Proof. exact put_url_repaired. Qed.
+Print Assumptions C13_location_port_repaired.
+
+Theorem C13_location_followed :
+  forall req t dg,
+    (u_port req <> port443 \/ u_host t <> u_host req \/ u_port t <> []) ->
+    let u := put_url req (LAbs t) dg in
+    u_scheme u = u_scheme t /\ u_host u = u_host t /\ u_port u = u_port t /\ u_path u = u_path t.
+Proof. exact put_url_followed. Qed.
+Print Assumptions C13_location_followed.
+
+Theorem C13_location_query :
+  forall req l dg k v,
+    In (k, v) (u_query (put_url req l dg)) <->
+    (k = k_digest /\ v = dg) \/ (k <> k_digest /\ In (k, v) (u_query (resolve req l))).
+Proof. exact put_url_query. Qed.
+Print Assumptions C13_location_query.
+
+Example C13_location_example :
+  put_url_str (b "https") (b "registry.example") (b "443")
+              (b "https://registry.example/v2/app/blobs/uploads/7?_state=s1") (b "sha256:ab")
+  = Some (b "https://registry.example:443/v2/app/blobs/uploads/7?_state=s1&digest=sha256%3Aab").
+Proof. vm_compute. reflexivity. Qed.
+
+(* ------------------------------------------------------------------ *)
+(* Read/Seek on a blob reader of a range-capable registry = an in-memory reader over the
+   blob's bytes, for every script and every behaviour of the response bodies (chunking,
+   data together with io.EOF); a Range request "bytes=off-(size-1)" is emitted exactly when
+   the position changes to an offset inside the blob. *)
 Theorem C13_seek :
-  forall content os,
-    rsc_run content (rsc_open content (len content)) os = ref_run content (mkPos 0 false) os.
+  forall (modes : nat -> bmode) content os,
+    rsc_run modes content (rsc_open content (len content)) os
+    = ref_run modes content (mkPos 0 false 0) os.
 Proof. exact seek_refines. Qed.
 Print Assumptions C13_seek.
 
-(* non-vacuity *)
+(* ... and that reader returns, for EVERY body behaviour (short reads of any chunk size, the
+   last bytes with or before io.EOF, per body), a prefix of the bytes at the position, no
+   longer than the buffer, advances by exactly what it returned, and reports io.EOF only
+   at the end of the content *)
+Theorem C13_seek_read :
+  forall (modes : nat -> bmode) content k n k1 rq c eof,
+    s_closed k = false ->
+    ref_step modes content k (SRead n) = (k1, rq, SData c eof) ->
+    rq = [] /\ c = firstn (length c) (skipn (N.to_nat (s_off k)) content) /\
+    (len c <= n) /\ s_off k1 = s_off k + len c /\
+    (eof = true -> skipn (N.to_nat (s_off k1)) content = []).
+Proof. exact ref_read_spec. Qed.
+Print Assumptions C13_seek_read.
+
+(* non-vacuity: a body that delivers 3 bytes per call and the last ones together with EOF;
+   read to the very end, ask for the position, step back, re-read, seek to the same place *)
 Example C13_seek_example :
-  rsc_run (b "hello world") (rsc_open (b "hello world") 11)
-          [SRead 2; SSeek 6 SeekStart; SRead 100; SSeek (-1) SeekEnd; SRead 1; SSeek 0 SeekCurrent]
-  = [([], SBytes (b "he")); ([(6, 10)], SPos 6); ([], SBytes (b "world")); ([(10, 10)], SPos 10);
-     ([], SBytes (b "d")); ([], SPos 11)].
+  rsc_run (fun _ => mkBm 3 true) (b "hello world") (rsc_open (b "hello world") 11)
+          [SRead 2; SSeek 6 SeekStart; SRead 100; SRead 100; SSeek 0 SeekCurrent; SRead 1;
+           SSeek (-1) SeekCurrent; SRead 5; SSeek 11 SeekStart; SSeek 0 SeekEnd]
+  = [([], SData (b "he") false); ([(6, 10)], SPos 6); ([], SData (b "wor") false);
+     ([], SData (b "ld") true); ([], SPos 11); ([], SData [] true);
+     ([(10, 10)], SPos 10); ([], SData (b "d") true); ([], SPos 11); ([], SPos 11)].
 Proof. vm_compute. reflexivity. Qed.
